@@ -199,6 +199,7 @@ func Run(r *rt.Run) error {
 		named{"floats+single", ToBatches([][]Pt{Seqs["floats"], Seqs["single"]}, false)},
 		named{"single+ints", ToBatches([][]Pt{Seqs["single"], Seqs["ints"]}, false)},
 		named{"ooo+floats", ToBatches([][]Pt{Seqs["ooo"], Seqs["floats"]}, false)},
+		named{"carry", ToBatches(CarrySeqs, false)},
 	)
 	nRand := 2
 	if r.Thorough() {
@@ -210,8 +211,10 @@ func Run(r *rt.Run) error {
 		bIn = append(bIn, named{fmt.Sprintf("rand%d", i), ToBatches([][]Pt{a, b}, false)})
 	}
 
-	// 1. every single node on every input, three source groupings
-	srcs := []Source{srcS, {Dims: nil}, {Dims: []string{"h"}, ByName: true}, srcB, {Batch: true, Dims: []string{"h"}, ByName: true}}
+	// 1. every single node on every input, four stream and two batch source groupings
+	// srcS2: two explicit dimensions (from() hands its sorted tag-name slice to every point)
+	srcS2 := Source{Dims: []string{"p", "h"}}
+	srcs := []Source{srcS, {Dims: nil}, {Dims: []string{"h"}, ByName: true}, srcS2, srcB, {Batch: true, Dims: []string{"h"}, ByName: true}}
 	for _, v := range vs {
 		for _, s := range srcs {
 			if s.Batch {
@@ -231,6 +234,12 @@ func Run(r *rt.Run) error {
 	}
 	// 2. every chain of length 2 (every variant at both positions), stream and
 	// batch; the input rotates over the pairs (thorough: two inputs per pair)
+	carry := bIn[len(bIn)-1]
+	for _, in := range bIn {
+		if in.name == "carry" {
+			carry = in
+		}
+	}
 	k := 0
 	perPair := 1
 	if r.Thorough() {
@@ -243,6 +252,21 @@ func Run(r *rt.Run) error {
 				bi := bIn[(k+d*2)%len(bIn)]
 				x.add(chain(srcS, a, b), si.ins, si.name)
 				x.add(chain(srcB, a, b), bi.ins, bi.name)
+			}
+			// a per-batch memory behind ANY node (many zero the batch size hint) must still be
+			// forgotten at the next batch of the group
+			// ... with NO sink between the two nodes: a log() re-buffers the batch and restores the
+			// size hint that where/eval/changeDetect/flatten/derivative set to 0 or n-1
+			if PerBatchMemory[b.K] || b.K == "combine" || b.K == "flatten" {
+				bare := a
+				bare.Bare = true
+				x.add(chain(srcB, bare, b), carry.ins, carry.name)
+			}
+			// two-dimension source: a node that drops or rewrites a dimension must not
+			// touch the dimension list other points and branches share
+			if a.K == "delete" || a.K == "default" || a.K == "eval" || a.K == "groupBy" || b.K == "delete" {
+				si := sIn[(k+1)%len(sIn)]
+				x.add(chain(srcS2, a, b), si.ins, si.name)
 			}
 			k++
 		}
@@ -317,6 +341,10 @@ func Run(r *rt.Run) error {
 			forks += 3
 			k++
 		}
+		ins := sIn[k%len(sIn)]
+		x.add(fork(srcS2, nil, []Node{a}, []Node{tap}), ins.ins, ins.name)
+		x.add(fork(srcS2, nil, []Node{tap}, []Node{a}), ins.ins, ins.name)
+		forks += 2
 	}
 	for _, a := range vs {
 		for _, b := range vs {
@@ -340,7 +368,7 @@ func Run(r *rt.Run) error {
 	r.Extra["traces_per_kind"] = x.byKind
 	r.Extra["late_mutation_in_chains_drift"] = x.unstable
 	r.Extra["node_errors_reported"] = x.nodeErrs
-	r.Finish(fmt.Sprintf("every parameterisation (%d over %d node kinds) alone under 5 source groupings on every input; every chain of length 2 on stream and batch edges; chains of length 3 (thorough: all, quick: every kind triple + seeded sample); forks with a shared message (every variant against a tap sibling, under the source and under a node; variant pairs). Real tasks with a log() sink under every node; inputs: 5 hand-written sequences (ints, mixed types/missing fields, floats/second measurement/missing group tag, single-field, times going backwards) + seeded random ones, 2 groups, repeated timestamps. Non-trivial = >= 2 nodes and some node emitted something, distinct by (pipeline, input)", len(vs), len(Kinds)), r.Thorough())
+	r.Finish(fmt.Sprintf("every parameterisation (%d over %d node kinds) alone under 6 source groupings (one with two dimensions) on every input; every chain of length 2 on stream and batch edges; chains of length 3 (thorough: all, quick: every kind triple + seeded sample); forks with a shared message (every variant against a tap sibling, under the source and under a node; variant pairs). Real tasks with a log() sink under every node; inputs: 5 hand-written sequences (ints, mixed types/missing fields, floats/second measurement/missing group tag, single-field, times going backwards) + seeded random ones, 2 groups, repeated timestamps. Non-trivial = >= 2 nodes and some node emitted something, distinct by (pipeline, input)", len(vs), len(Kinds)), r.Thorough())
 	return nil
 }
 
